@@ -12,7 +12,7 @@ cargo build --offline --manifest-path /repo/Cargo.toml -p rsjsonnet --target-dir
 props=$(python3 -c "import json;print(' '.join(c['property_id'] for c in json.load(open('MANIFEST.json'))['checks']))")
 cd lean
 for p in $props; do lake build RsjProps.$p || echo "setup: RsjProps.$p failed"; done
-for m in RsjProps.C10Eval RsjProps.C04Eval RsjProps.C02Eval RsjProps.C09Eval RsjProps.C07Eval RsjProps.C08Eval RsjProps.C03Eval RsjProps.C11Eval RsjProps.C04Rewrite RsjProps.C01Eval RsjProps.C17Eval RsjProps.C02Pipeline RsjProps.C09Pipeline RsjProps.C01Pipeline RsjProps.C15NoFault RsjProps.C01Pipeline2 RsjProps.C01Pipeline3; do lake build $m || echo "setup: $m failed"; done
+for m in RsjProps.C10Eval RsjProps.C04Eval RsjProps.C02Eval RsjProps.C09Eval RsjProps.C07Eval RsjProps.C08Eval RsjProps.C03Eval RsjProps.C11Eval RsjProps.C04Rewrite RsjProps.C01Eval RsjProps.C17Eval RsjProps.C02Pipeline RsjProps.C09Pipeline RsjProps.C01Pipeline RsjProps.C15NoFault RsjProps.C01Pipeline2 RsjProps.C01Pipeline3 RsjProps.C01EvalNaN; do lake build $m || echo "setup: $m failed"; done
 for d in $(ls Drv | sed 's/\.lean$//'); do
   op=$(python3 -c "import sys;sys.path.insert(0,'..');import vlib;print({v:k for k,v in vlib.OP_MODULE.items()}.get('$d',''))")
   [ -n "$op" ] && (lake build drv_$op || echo "setup: drv_$op failed")
